@@ -300,14 +300,16 @@ EXTRA = {
             'the one returned with the aggregated votes; the average '
             'correlation of a voted level is replaced only under an `is '
             'None` test; neighbour and correlation lists are zipped in '
-            'lock-step.'),
+            'lock-step; zero norms are replaced on a test of the norm.'),
     'C04': ('shared random stream modelled as an order-sensitive '
             'accumulator',
             'Also: a draw from a shared generator inside a loop whose '
             'visiting order carries an order label yields a labelled '
             'value; key order of nested dicts is tracked; numeric '
             'accumulation in a labelled visiting order (also inside a '
-            'callee, also through lists of lists) is a labelled value.'),
+            'callee, also through lists of lists) is a labelled value; '
+            'selecting a loop element under a test in a labelled loop '
+            'labels the selection.'),
     'C05': ('write-cursor discipline, loop-coverage must-pass, exact '
             'tiling of chunked loops, index-space typing of numpy code',
             'Also decides: write cursors of the assembly loops are used, '
@@ -332,12 +334,14 @@ EXTRA = {
             'tables start from zeros; files are compared by gene sequence '
             'before column-wise addition; chunk windows tile the rows; '
             'per-file state of a worker is refreshed on a test of the '
-            'file.'),
+            'file; files merged by position are compared on their '
+            'complete numbering tables.'),
     'C10': ('loop-coverage must-pass in the tree builder',
             'Also decides: the builder records every parent-child link of '
             'every row before validation (no early exit); tables filled '
             'in loops over the levels are keyed by (level, label); memo '
-            'keys are complete; zipped lists are in lock-step.'),
+            'keys are complete; zipped lists are in lock-step; the '
+            'release term-table reader records every row.'),
     'C13': ('write-cursor discipline, index-space typing, exact tiling',
             'Also decides: cursor discipline of the join / amalgamation '
             'loops, index spaces of the transposition, tiling of all '
@@ -346,11 +350,13 @@ EXTRA = {
             'loop-coverage',
             'Also decides: the confidence-column rename spells names as '
             'blob_to_df builds them; every cell gets a CSV row; name '
-            'lookups are keyed by (level, label).'),
+            'lookups are keyed by (level, label); the CSV is written '
+            'with the stored tree.'),
     'C16': ('exact tiling of the scanning loops, lookup provenance',
             'Also decides: min/max, integrality and rounding scans tile '
             'their matrix exactly; gene identifiers are looked up as '
-            'given and clipped afterwards.'),
+            'given and clipped afterwards; every window of a rounding '
+            'loop is written.'),
     'C17': ('back-fill provenance (shared with C01)',
             'Also decides: the dropped level is back-filled through the '
             'parent table of that level; node tables are keyed by (level, '
